@@ -14,7 +14,8 @@
     universally quantified; [style_ok ist fi] = explicit "none" is only written for the repaired parser. *)
 From Coq Require Import String Ascii List Bool ZArith Permutation.
 From LC Require Import Common NumDefs XmlDefs EntTreeDefs PrintDefs LoadDefs RoundtripSpec Load1xDefs To1xDefs
-     RoundtripEncProofs TransformSimProofs TransformProofs TransformHoistProofs Load1xProofs Drop1xSpec Drop1xProofs.
+     RoundtripEncProofs TransformSimProofs TransformProofs TransformHoistProofs Load1xProofs Drop1xSpec Drop1xProofs
+     MathNsDefs MathNsProofs.
 From LCGen Require RuleTable.
 Import ListNotations.
 Local Open Scope string_scope.
@@ -222,6 +223,34 @@ Print Assumptions C14_math_rewrite_shape.
 Theorem C14_math_roundtrip : forall v x, math_ok1 x = true -> rewrite_math (conv_math v x) = x.
 Proof. intros. now apply TransformSimProofs.math_sim. Qed.
 Print Assumptions C14_math_roundtrip.
+
+(** * the declaration layer (MathNsDefs: elements with prefixes and xmlns declarations, as libxml2 holds them): for
+      EVERY math element of a 1.x component — whatever prefix names the legacy namespace, wherever it is declared (on math,
+      on an inner element, as a default namespace), used by a cellml:units attribute of this block, of another block or by
+      none, shadowed or not — the tree that is serialised into the component's math string declares no CellML 1.0 / 1.1
+      namespace anywhere, and below math no attribute is left in one *)
+Theorem C14_stored_math_no_1x_declaration : forall x,
+  no_1x_decl (stored_math x) = true
+  /\ match stored_math x with NElem _ _ _ _ _ ks => forallb clean_tree ks = true | _ => True end.
+Proof. exact MathNsProofs.stored_math_no_1x. Qed.
+Print Assumptions C14_stored_math_no_1x_declaration.
+
+(** closed instances: the prefix declared on math / on inner elements and NOT used: the declarations are gone and nothing
+    is added; declared and used: one declaration of the 2.0 namespace on math, the attribute follows; and on them the
+    declaration layer agrees with the tree layer of Load1xDefs ([erase] forgets prefixes and declarations) *)
+Example C14_stored_math_examples :
+  stored_math ex_unused_on_math
+  = nmath [] [nel "apply" [] [] [nel "eq" [] [] []; nel "ci" [] [] [NText "x"]; nel "ci" [] [] [NText "x"]]]
+  /\ stored_math ex_unused_inner
+     = nmath [] [nel "apply" [] [] [nel "eq" [] [] []; nel "ci" [] [] [NText "x"]; nel "ci" [] [] [NText "x"]]]
+  /\ stored_math ex_used
+     = nmath [("cellml", CELLML_2_0_NS)]
+             [nel "apply" [] [] [nel "eq" [] [] []; nel "ci" [] [] [NText "x"];
+                                 nel "cn" [] [mkNA "" "" "type" "real"; mkNA "cellml" CELLML_2_0_NS "units" "second"] [NText "1"]]]
+  /\ erase (stored_math ex_used) = rewrite_math (erase ex_used)
+  /\ erase (stored_math ex_unused_inner) = rewrite_math (erase ex_unused_inner).
+Proof. repeat split; vm_compute; reflexivity. Qed.
+Print Assumptions C14_stored_math_examples.
 
 (** * tie of the loader's rule names to the regenerated rule table *)
 Theorem C14_rules_in_table : forallb (fun r => existsb (String.eqb r) LCGen.RuleTable.rule_names) loader_rules = true.
